@@ -879,7 +879,7 @@ DELETE FROM queue_items
 WHERE id = (
   SELECT id FROM queue_items
   WHERE state = ?
-  ORDER BY received_at ASC
+  ORDER BY received_at ASC, id ASC
   LIMIT 1
 );
 `, string(StateQueued))
